@@ -669,8 +669,10 @@ class StrategyBase(Node):
         """
         Update strategy. Updates prices, values, weight, etc.
         """
-        # resolve stale state
-        self.root.stale = False
+        # resolve stale state (only an update of the whole tree does: after
+        # an update of a sub-strategy alone the root is as stale as before)
+        if self.root == self:
+            self.root.stale = False
 
         # update helpers on date change
         # also set newpt flag
